@@ -16,6 +16,7 @@ type Profile struct {
 	MaxLen      int     // max slice length
 	SmallDomain bool    // few distinct values (dictionary hits, RLE runs)
 	LongLists   bool    // one scalar slice per row gets 513-2100 elements (more than any internal chunk size)
+	LongLen     int     // > 0 with LongLists: the long slice gets exactly this many elements
 	longUsed    bool
 	RunLen      int // if > 0, null/non-null decisions are made in runs of about this length
 	runLeft     map[string]int
@@ -223,6 +224,9 @@ func Fill(r *rand.Rand, v reflect.Value, p *Profile, path string, isOptional boo
 		case p.LongLists && !p.longUsed && ek != reflect.Struct && ek != reflect.Slice && ek != reflect.Ptr && ek != reflect.Map && r.Intn(3) > 0:
 			// one scalar list per row only: nesting long lists multiplies out
 			n = []int{513, 600, 1100, 2100}[r.Intn(4)]
+			if p.LongLen > 0 {
+				n = p.LongLen
+			}
 			p.longUsed = true
 		case k == 0:
 			v.Set(reflect.Zero(v.Type())) // nil
@@ -451,6 +455,9 @@ func splitTag(tag string) []string {
 	}
 	return append(out, cur)
 }
+
+// LongUsed: did the last row filled with this profile get its long list?
+func (p *Profile) LongUsed() bool { return p.longUsed }
 
 // FillRows fills a []T (reflect slice) with random rows.
 func FillRows(r *rand.Rand, rows reflect.Value, p *Profile) {
